@@ -98,7 +98,11 @@ RULE = ("codec level (pilota::prost::encoding called directly, answers compared 
         "pv/pbgen.run_c10 (random bytes, plausible records, truncations / bit flips / insertions / length-prefix corruptions of "
         "valid encodings, lone oversized prefixes for every LEN-typed field, nesting 1..300 of messages / map entries / unknown "
         "groups / mixed, non-canonical scalars, length-delimited framing) over every generated message of the corpus and the "
-        "wrapper impls of types.rs, both feature builds. non-trivial = non-empty input; distinct by SHA-1 of the case line")
+        "wrapper impls of types.rs, both feature builds; group-holder = grpdec lines (truncated / corrupted encodings of the "
+        "hand-written GroupHolder<M>, wrong end-group numbers, unterminated groups, groups nested 1..120); every case -- codec and "
+        "generated level -- is ALSO decoded from non-contiguous buffers holding the same bytes (multi-chunk Buf, Buf::chain, "
+        "small pieces, wrapped VecDeque<u8>): no panic there either and the same answer as from the contiguous buffer. "
+        "non-trivial = non-empty input; distinct by SHA-1 of the case line")
 
 
 def run(chk, replay=None):
